@@ -40,7 +40,8 @@ def document(scaling="standardscaler", months=range(1, 13), tz="US/Pacific", see
             "temperature_edge_bin_coefficients": {"0": {"t_a": 0.5, "t_b": 1.2, "k": 0.8, "a": 0.4}, str(nb - 1): {"t_a": 0.5, "t_b": -1.1, "k": 0.9, "a": 0.5}},
             "ts_features": ts, "categorical_features": cat, "feature_scaler": fs, "catagorical_scaler": None, "y_scaler": [1.5, 0.7],
             "coefficients": rng.normal(0, 0.05, size=(24, nf)).tolist(), "intercept": rng.normal(0, 0.3, size=24).tolist(),
-            "baseline_metrics": {"observed": {}, "predicted": {}, "residuals": {}}, "info": info}
+            "baseline_metrics": {"observed": {"mean": 1.5, "std": 0.5}, "predicted": {"mean": 1.5, "std": 0.4}, "residuals": {"mean": 0.0, "std": 0.2},
+                                 "n": 8760.0, "cvrmse_adj": 0.35, "pnrmse_adj": 0.2}, "info": info}
 
 
 def model(**kw):
